@@ -130,6 +130,67 @@ Theorem C11_frame_decoder_total :
 Proof. exact frame_decoder_total. Qed.
 Print Assumptions C11_frame_decoder_total.
 
+(* ---------- "if no server is running the client starts one and proceeds" ---------- *)
+
+(* What the client does on each report of the server it spawned, and on each first connect result: it obtains
+   a connection iff the first connect worked, or it was refused AND the spawned server reported Ok (on the
+   requested address) or AddrInUse AND one of the at most 11 connect attempts meets a listener.  TimedOut,
+   Err, a wrong address, a failed spawn, any other connect error: sccache error (exit 2). *)
+Theorem C11_start_up_table :
+  forall first rep later,
+    connect_or_start first rep later = None <->
+    first = AOk \/
+    (first = ARefused /\ (rep = SOk true \/ rep = SAddrInUse) /\ connect_with_retry later = true).
+Proof. exact connect_or_start_table. Qed.
+Print Assumptions C11_start_up_table.
+
+(* AddrInUse (another client's server won the race for the port) is handled exactly like "my server
+   started": the client proceeds to connect. *)
+Theorem C11_addr_in_use_proceeds :
+  forall later,
+    connect_or_start ARefused SAddrInUse later = connect_or_start ARefused (SOk true) later /\
+    (connect_with_retry later = true -> connect_or_start ARefused SAddrInUse later = None).
+Proof. exact addr_in_use_proceeds. Qed.
+Print Assumptions C11_addr_in_use_proceeds.
+
+(* Cold start, any number of clients: a client that found no server, whose spawned server won (Ok) or lost
+   (AddrInUse) the port, and that reaches the listener within its retries, gets the compile result. *)
+Theorem C11_cold_start_delivers :
+  forall opq ignore_io rep later f tail e,
+    rep = SOk true \/ rep = SAddrInUse ->
+    connect_with_retry later = true ->
+    wf_finished f -> blen (encode_finished f) < 4294967296 ->
+    compile_process opq ignore_io ARefused rep later
+      (frame (encode_compile_response CompileStarted) ++ frame (encode_finished f) ++ tail) e
+    = PCompile (ReturnFinished f).
+Proof. exact cold_start_delivers. Qed.
+Print Assumptions C11_cold_start_delivers.
+
+(* C11_never_false_success for the whole process, start-up included. *)
+Theorem C11_process_never_false_success :
+  forall opq ignore_io first rep later bytes e local,
+    process_exit (compile_process opq ignore_io first rep later bytes e) local = 0 ->
+    connect_or_start first rep later = None /\
+    ((exists p1 r1 p2 r2 f,
+        framed bytes p1 r1 /\ decode_response opq p1 = Some (RCompile CompileStarted) /\
+        framed r1 p2 r2 /\ decode_response opq p2 = Some (RFinished f) /\
+        client opq ignore_io bytes e = ReturnFinished f /\ finished_exit f = 0)
+     \/ (exists w, client opq ignore_io bytes e = RunLocally w /\ local = 0)).
+Proof. exact process_never_false_success. Qed.
+Print Assumptions C11_process_never_false_success.
+
+(* ---------- well-formed but unservable requests do not disturb later requests ---------- *)
+
+(* The compiler map is shared by all connections.  For EVERY history of compile requests (any connections, any
+   paths, any probe outcomes — in particular failed probes for the same compiler path, which leave `None`
+   entries) a request whose own probe succeeds is served. *)
+Theorem C11_failed_probe_does_not_poison :
+  forall (before : list compile_req) (q : compile_req) (after : list compile_req),
+    q_probe_ok q = true ->
+    nth_error (fst (serve_all [] (before ++ q :: after))) (length before) = Some true.
+Proof. exact served_after_any_history. Qed.
+Print Assumptions C11_failed_probe_does_not_poison.
+
 (* ---------- non-vacuity ---------- *)
 
 Definition ex_opq (_ : N) (_ : list N) : bool := false.
@@ -185,3 +246,20 @@ Example ex_undecodable_closes_only_itself :
   c_state (feed 8388608 conn_init [0; 0; 0; 4; 9; 9; 9; 9; 0; 0; 0; 4; 1; 0; 0; 0]) = Closed BadMessage /\
   c_reqs (feed 8388608 conn_init [0; 0; 0; 4; 9; 9; 9; 9; 0; 0; 0; 4; 1; 0; 0; 0]) = [].
 Proof. vm_compute. split; reflexivity. Qed.
+
+Example ex_cold_start_race :
+  connect_or_start ARefused SAddrInUse [ARefused; ARefused; AOk] = None /\
+  connect_or_start ARefused STimedOut [AOk] = Some EStartTimedOut /\
+  connect_or_start ARefused (SOk true) [] = Some ERetryExhausted /\
+  connect_with_retry (repeat ARefused 11 ++ [AOk]) = false.
+Proof. vm_compute. repeat split; reflexivity. Qed.
+
+(* the same compiler path: probe fails for one request (its environment), then ordinary requests; and a
+   positive entry with an old mtime is probed again *)
+Example ex_poison_order :
+  fst (serve_all [] [ {| q_path := [1]; q_mtime := 5; q_probe_ok := false |};
+                      {| q_path := [1]; q_mtime := 5; q_probe_ok := true |};
+                      {| q_path := [1]; q_mtime := 5; q_probe_ok := false |};
+                      {| q_path := [1]; q_mtime := 6; q_probe_ok := false |} ])
+  = [false; true; true; false].
+Proof. vm_compute. reflexivity. Qed.
